@@ -83,6 +83,19 @@ RULE += (' ' +
          'the reply and every packet arrive once, in order. Round 12: peers '
          "that reset (the client's own shutdown() then fails); descriptors "
          'of ended sessions closed. ')
+RULE += (' ' +
+         'Added in later rounds: histories entered through version '
+         'negotiation; two logged-in connections at once; repeated sessions '
+         'on one object; write errors; kick reasons of every JSON shape '
+         'incl. nesting 3000-60000 deep, unbalanced and 70 kB long; unknown '
+         'frames of exactly threshold-1/threshold/threshold+1 bytes. Round '
+         '11: component flood - one keep-alive, then 70 000 (thorough 300 '
+         '000) packets queued at once from a listener or the user thread; '
+         'the reply and every packet arrive once, in order. Round 12: peers '
+         "that reset (the client's own shutdown() then fails); descriptors "
+         'of ended sessions closed. Round 15: histories under clocks that '
+         'leap an hour per reading (wall clock and timeit.default_timer) or '
+         'step back. ')
 LEVEL_TEXT = ('Model-based testing of the play-state reactions over '
               'generated server histories x versions x compression x '
               'delivery patterns on an in-memory network.')
